@@ -176,6 +176,33 @@ def check_long_strings(r, cfg):
                 r.ctr['true_verdicts' if exp else 'false_verdicts'] += 1
 
 
+def check_growing(r, cfg):
+    """One filter instance judged on a strand that grows one nucleotide at a time (how a coder uses it),
+    alternating whole-sequence and last-window calls."""
+    k = cfg[0]
+    case0 = {'cfg': [cfg[0], cfg[1], list(cfg[2]) if cfg[2] else None, cfg[3]], 'growing': True}
+    c = O.compile_cfg(cfg)
+    seeds = ['A' * (k + 4), 'T' * (k + 4), 'G' * (k + 3) + 'A', ('ACGT' * 6)[:k + 8], ('AACCGGTT' * 4)[:2 * k + 6], 'C' * k + 'G' * (k + 1),
+             ('AT' * 10)[:k + 6] + 'GGGGGGG', ('GC' * 10)[:k + 5] + 'AAAAAAAT', 'ACG' * 2 + 'TT' + 'ACG' + 'AGCT']
+    for seed in seeds:
+        for order in ('whole-first', 'last-first', 'whole-only'):
+            st, f, _ = brun(make_filter, cfg)
+            if st != 'ok':
+                return
+            for i in range(1, len(seed) + 1):
+                s = seed[:i]
+                e_w, e_l = O.seq_ok_c(c, s), O.seq_ok_c(c, s[-k:])
+                calls = [('w', e_w), ('l', e_l)] if order == 'whole-first' else [('l', e_l), ('w', e_w)] if order == 'last-first' else [('w', e_w)]
+                for mode, exp in calls:
+                    st, got, _ = brun(f.valid, s, only_last=(mode == 'l'))
+                    r.trans += 1
+                    r.evals += 1
+                    if st != 'ok' or bool(got) != exp:
+                        r.v(sig_of(cfg, s, ('whole-sequence' if mode == 'w' else 'last-window') + '-verdict|same-instance-growing-strand'), 'grow',
+                            dict(case0, strings=[seed], at=i, order=order), exp, got if st == 'ok' else repr(got))
+    r.ctr['growing_histories'] += len(seeds) * 3
+
+
 def check_ctor(r):
     """Constructor: rejects run > window and motif > window with ValueError."""
     import dsw
@@ -202,6 +229,10 @@ def check_case(r, kind, case):
     if kind == 'wide':
         c = case['cfg']
         check_gc_wide(r, c[0], c[2][0], c[2][1], max([len(x) for x in case.get('strings') or ['']] + [c[0]]))
+        return
+    if kind == 'grow':
+        c = case['cfg']
+        check_growing(r, (c[0], c[1], tuple(c[2]) if c[2] else None, c[3]))
         return
     if kind == 'long':
         c = case['cfg']
@@ -243,6 +274,13 @@ def _w_long(chunk):
     return r
 
 
+def _w_grow(chunk):
+    r = core.Res()
+    for cfg in chunk:
+        check_growing(r, cfg)
+    return r
+
+
 def _w_ctor(_):
     r = core.Res()
     check_ctor(r)
@@ -270,6 +308,11 @@ def run(ctx):
             cfg = (k, None if run is None else min(run, k), gc, None if mot is None else [m for m in mot if len(m) <= k])
             longs.append(cfg)
     ctx.pmap(_w_long, [[c] for c in longs])
+    grow = [c for c in cfgs if c[0] >= 2 and (c[1] is not None or c[3])][::3] + longs
+    for k in (2, 3, 4, 6):
+        grow += [(k, k, None, None), (k, k, ('0', '0.7'), None), (k, k, ('0.3', '1'), None), (k, k - 1, ('0', '1'), None)]
+    ctx.pmap(_w_grow, core.chunks_of(grow, 6))
+    ctx.guard('growing histories', ctx.res.ctr['growing_histories'] > 100)
     ctx.pmap(_w_ctor, [0], nproc=1)
     ctx.bounds = {'strings_up_to': n, 'configurations': len(cfgs), 'k': [1, 5], 'wide_window_gc_grid': '%d (k, lo, hi) with k up to %d and 28 decimals incl. 0.29, 0.57, 0.58, 0.335, on all {A,C}-strings up to length k+2' % (len(wide), 10 if ctx.quick else 12), 'long_strings': '%d configurations at k=4,6,8,10 on 50-nt periodic strings with a run/motif planted at every offset' % len(longs)}
     ctx.rule = ('one case = (configuration, string): whole-sequence verdict against an exact-rational reference predicate, '
